@@ -105,6 +105,10 @@ def _seed_global_rng(case):
     saved case replays identically in a fresh process."""
     import numpy as np
     np.random.seed(digest(case) & 0xFFFFFFFF)
+    # ... and the processor's floating-point status flags are in the state
+    # any caller may leave them in (invalid operation raised by earlier,
+    # unrelated arithmetic): they are sticky and process-wide
+    _ = float("inf") - float("inf")
 
 
 def derive_seed(base, name, shard):
